@@ -12,8 +12,11 @@ COQ_TARGETS = ["props/C05.vo", "model/Phasing.vo"]   # the shared infer-switch t
 RULE = ("(a) _damp / _rescale called directly on generated (posterior, message, step) and (posterior, max_shape) "
         "tuples: proper, zero, boundary (1+alpha == s, == 1/s) and improper (assertion) ones; (b) tape cases as in "
         "C21 with max_shape in 1.0001..20 so that the cap fires; (c) real tsdate.date(variational_gamma) calls on "
-        "msprime inputs (haploid / diploid unphased / historical / internal samples / stars) x max_shape (1.0001..1000) "
-        "x mutation_rate (1e-6..1e3, to provoke skipped updates) x iterations x rescaling on/off x singletons_phased. "
+        "msprime inputs (haploid / diploid unphased / historical / internal samples / stars / unary chains with "
+        "allow_unary; 40% decorated by gen.exotic: renumbered nodes, extra flag bits, mutations above local roots which "
+        "must stay undefined, mutation-free sites, unknown times, allele states, populations) x max_shape (1.0001..1000) "
+        "x mutation_rate (1e-6..1e3, to provoke skipped updates) x iterations x rescaling off (intervals=0 or iterations=0) / on "
+        "x match_segregating_sites x singletons_phased x numpy-typed option scalars. "
         "Non-trivial when at least one non-sample node was updated; distinct by content hash")
 ASSUME = ["every-node-updated and the post-rescaling re-projection are only explored by the oracle (not proved)",
           "the approx projections are replayed (tape), not recomputed"]
@@ -24,7 +27,7 @@ def helper_inputs(rng, n):
     damp, resc = [], []
     for _ in range(n):
         style = rng.choice(["proper", "proper", "proper", "zero", "bad", "tight"])
-        s = rng.choice([0.1, 0.5, 0.01, 0.9])
+        s = rng.choice([0.1, 0.5, 0.01, 0.9, 0.1, 0.5, 0.0, 1.0, 1e-300])   # 0 and 1 exactly: must assert
         if style == "zero":
             x = (0.0, 0.0)
             y = rng.choice([(0.0, 0.0), (0.0, 0.0), (1.0, 2.0)])
@@ -40,8 +43,10 @@ def helper_inputs(rng, n):
                 y = (rng.uniform(-2, 2) * (abs(a) + 1), rng.uniform(-1, 1.5) * b)
         damp.append((x, y, s))
     for _ in range(n):
-        S = rng.choice([1.0, 1.0001, 1.5, 2.0, 5.0, 20.0, 1000.0])
+        S = rng.choice([1.0, 1.0001, 1.5, 2.0, 5.0, 20.0, 1000.0, float("inf")])
         style = rng.choice(["proper", "over", "under", "edge", "zero", "bad"])
+        if S == float("inf"):
+            style = rng.choice(["proper", "zero", "bad", "huge"])
         b = 10 ** rng.uniform(-8, 8)
         if style == "zero":
             x = (0.0, 0.0)
@@ -53,6 +58,8 @@ def helper_inputs(rng, n):
             x = (rng.choice([S - 1, 1 / S - 1, 0.0]), b)
         elif style == "bad":
             x = rng.choice([(-1.0, b), (-3.0, b), (1.0, 0.0), (1.0, -b)])
+        elif S == float("inf"):
+            x = (10 ** rng.uniform(-3, 300) if style == "huge" else rng.uniform(-0.99, 50), b)
         else:
             x = (rng.uniform(1 / S - 1, S - 1), b)
         resc.append((x, S))
@@ -81,12 +88,16 @@ def helpers(ctx, model_ok):
             continue
         sh = x[0] + 1 - d * y[0]
         rt = x[1] - d * y[1]
-        if not (0 < d <= 1 and sh >= s * (x[0] + 1) * (1 - 1e-12) and rt >= s * x[1] * (1 - 1e-12)):
+        # up to the rounding of the two subtractions (the bound is exact over the reals: C05_damp_keeps_positive;
+        # with an absurdly small step such as 1e-300 the computed cavity shape can be -2e-16)
+        tol_sh = 1e-12 * (abs(x[0] + 1) + abs(d * y[0]))
+        tol_rt = 1e-12 * (abs(x[1]) + abs(d * y[1]))
+        if not (0 < d <= 1 and sh >= s * (x[0] + 1) - tol_sh and rt >= s * x[1] - tol_rt):
             ctx.oracle_fail("damp-cavity", "_damp(%r, %r, %r) = %r leaves cavity shape %r rate %r" % (x, y, s, d, sh, rt),
                             {"fn": "_damp", "x": x, "y": y, "s": s})
     for (x, S), e in zip(resc, iresc):
         ctx.case({"fn": "_rescale", "x": x, "S": S, "out": e}, nontrivial=not isinstance(e, str) and e != 1.0, kind="rescale/" + ("asserts" if isinstance(e, str) else ("capped" if e != 1 else "one")))
-        if isinstance(e, str) or x == (0.0, 0.0) or S <= 1.0:
+        if isinstance(e, str) or x == (0.0, 0.0) or S <= 1.0 or S == float("inf"):
             continue
         sh = e * x[0] + 1
         if not (e > 0 and 1 / S * (1 - 1e-12) <= sh <= S * (1 + 1e-12)):
@@ -115,12 +126,15 @@ def helpers(ctx, model_ok):
 # ---------------------------------------------------------------- (c) the property on real runs
 def date_case(rng):
     c = E.make_case(rng, kind=rng.choice(["plain", "diploid", "diploid", "diploid", "historical", "internal",
-                                            "dip-internal", "star"]))
+                                            "dip-internal", "star", "unary"]))
     o = c["opts"]
     o["max_shape"] = rng.choice([1.0001, 1.5, 2.0, 3.0, 5.0, 20.0, 20.0, 100.0, 1000.0])
     o["mutation_rate"] = rng.choice([1e-6, 1e-3, 1e-2, 0.1, 1.0, 1.0, 30.0, 1e3])
     o["iterations"] = rng.choice([1, 2, 5, 10])
-    o["rescaling_intervals"] = rng.choice([0, 0, 3, 10])
+    # rescaling off (either count exactly 0) / on with few or many intervals; both count arrays
+    o["rescaling_intervals"], o["rescaling_iterations"] = rng.choice([(0, 5), (3, 0), (3, 5), (10, 5), (1, 1), (1000, 2)])
+    o["segsites"] = rng.random() < 0.5
+    o["np_types"] = rng.random() < 0.3
     return c
 
 
@@ -151,6 +165,13 @@ def check_fit(ctx, case, ts, fit, where):
         k = int(np.flatnonzero(~(und | good))[0])
         ctx.oracle_fail("mutation-improper:" + where, "mutation %d has mean %r variance %r" % (k, mm[k], mv[k]), replay)
         return False
+    above_root = np.asarray(fit.mutation_edges) == -1
+    ctx.tally("mutations-above-root", int(np.sum(above_root)))
+    if np.any(above_root & ~und):
+        k = int(np.flatnonzero(above_root & ~und)[0])
+        ctx.oracle_fail("root-mutation-defined:" + where, "mutation %d sits above a local root (on no edge) but has posterior mean %r"
+                        % (k, mm[k]), replay)
+        return False
     ph = np.asarray(fit.mutation_phase, dtype=float)
     okp = np.isnan(ph) | ((ph >= 0.5) & (ph <= 1.0))
     if not np.all(okp):
@@ -168,12 +189,19 @@ def date_run(ctx, case):
     import tsdate
     ts = E.case_ts(case)
     o = case["opts"]
+    def ty(x):
+        if not o.get("np_types"):
+            return x
+        return np.bool_(x) if isinstance(x, bool) else (np.int64(x) if isinstance(x, int) else np.float64(x))
     try:
         with np.errstate(all="ignore"):
-            _d, fit = tsdate.date(ts, mutation_rate=o["mutation_rate"], method="variational_gamma",
-                                  max_iterations=o["iterations"], max_shape=o["max_shape"],
-                                  regularise_roots=o["regularise"], singletons_phased=o["singletons_phased"],
-                                  rescaling_intervals=o["rescaling_intervals"], return_fit=True, progress=False)
+            _d, fit = tsdate.date(ts, mutation_rate=ty(o["mutation_rate"]), method="variational_gamma",
+                                  max_iterations=ty(o["iterations"]), max_shape=ty(o["max_shape"]),
+                                  regularise_roots=ty(o["regularise"]), singletons_phased=ty(o["singletons_phased"]),
+                                  rescaling_intervals=ty(o["rescaling_intervals"]),
+                                  rescaling_iterations=ty(o.get("rescaling_iterations", 5)),
+                                  match_segregating_sites=ty(o.get("segsites", False)),
+                                  allow_unary=o.get("allow_unary", False), return_fit=True, progress=False)
     except Exception as e:    # rejected / crashing inputs are C35's business
         ctx.tally("date-raised-" + type(e).__name__)
         return None
@@ -240,7 +268,8 @@ def replay(ctx, data):
             if payload["fn"] == "_damp":
                 x, y, s = payload["x"], payload["y"], payload["s"]
                 d = float(V._damp(np.array(x, dtype=float), np.array(y, dtype=float), float(s)))
-                return 0 < d <= 1 and x[0] + 1 - d * y[0] >= s * (x[0] + 1) * (1 - 1e-12) and x[1] - d * y[1] >= s * x[1] * (1 - 1e-12)
+                return (0 < d <= 1 and x[0] + 1 - d * y[0] >= s * (x[0] + 1) - 1e-12 * (abs(x[0] + 1) + abs(d * y[0]))
+                        and x[1] - d * y[1] >= s * x[1] - 1e-12 * (abs(x[1]) + abs(d * y[1])))
             x, S = payload["x"], payload["S"]
             e = float(V._rescale(np.array(x, dtype=float), float(S)))
             return e > 0 and 1 / S * (1 - 1e-12) <= e * x[0] + 1 <= S * (1 + 1e-12)
